@@ -254,13 +254,22 @@ def gen_case(seed, idx, tier):
     explicit = bool(lines) and rng.random() < 0.3 and not multi
     if nested is not None:
         cfg.arg_file_key = "arg-file"
+    explicit_env = None
     if explicit:
         cfg.flags &= ~HF["readProgArg"]
         cfg.arg_file_key = "arg-file"
         cfg.files = [("my args/file.txt", ftext)]
-        aw = [rng.choice(["--arg-file=@HOME@/my args/file.txt", "--arg-file"])] + aw
-        if aw[0] == "--arg-file":
-            aw.insert(1, "@HOME@/my args/file.txt")
+        ref = [rng.choice(["--arg-file=@HOME@/my args/file.txt", "--arg-file"])]
+        if ref[0] == "--arg-file":
+            ref.append("@HOME@/my args/file.txt")
+        if ew and rng.random() < 0.4:
+            # the file is named inside the environment variable (in front of or behind its other arguments): its values are
+            # "from a file" and "from the environment" at once and can still be overridden on argv
+            explicit_env = rng.choice(["front", "back"])
+            ew = (ref + ew) if explicit_env == "front" else (ew + ref)
+            etext = " ".join(quote(w) for w in ew)
+        else:
+            aw = ref + aw
     else:
         cfg.files = [(".progargs/prog.pa", ftext)] if lines else []
     if nested is not None:
@@ -274,7 +283,7 @@ def gen_case(seed, idx, tier):
         if rng.random() < 0.5:
             cfg.flags &= ~HF["envVarArgs"]
     # expected by the model: fold over file + env + argv, cardinality only for argv uses
-    allu = (epart + fpart + apart) if explicit else (fpart + epart + apart)
+    allu = (fpart + epart + apart) if (not explicit or explicit_env == "front") else (epart + fpart + apart)
     try:
         exp = argh.expected(cfg, allu)
     except (argh.ModelAbstain, ValueError):
@@ -282,7 +291,7 @@ def gen_case(seed, idx, tier):
         return c
     if multi:
         exp[multi[0].slot] = multi[1]
-    c.meta.update(multi=multi[2] if multi else None, explicit=explicit, nested=nested is not None)
+    c.meta.update(multi=multi[2] if multi else None, explicit=explicit, nested=nested is not None, explicit_env=explicit_env)
     c.meta.update(cfg=cfg, exp=exp, parts=(fpart, epart, apart), override=override, last_nl=last_nl, nsrc=sum(1 for p in (fpart, epart, apart) if p))
     c.add("c07", lambda sid: argh.scenario_text(sid, "sources", cfg, aw))
     c.meta["kinds"] = ["sources"]
@@ -296,8 +305,9 @@ def gen_case(seed, idx, tier):
     if not override:
         # differential: everything on argv
         cfg2 = cfg
-        allw = (ew + [w for u in fw_by_use for w in u] + [w for w in aw if "@HOME@" not in w and w != "--arg-file"]) if explicit \
-            else ([w for u in fw_by_use for w in u] + ew + aw)
+        plain = lambda ws: [w for w in ws if "@HOME@" not in w and w != "--arg-file"]
+        fw_all = [w for u in fw_by_use for w in u]
+        allw = (fw_all + plain(ew) + plain(aw)) if (not explicit or explicit_env == "front") else (plain(ew) + fw_all + plain(aw))
         files, env = cfg.files, cfg.env
 
         def text2(sid):
@@ -348,6 +358,8 @@ def judge(c, results, rep):
         rep.stat("sources.nested_argument_file")
     if cfg.env_name:
         rep.stat("sources.explicit_environment_variable_name")
+    if c.meta.get("explicit_env"):
+        rep.stat("sources.arg_file_named_in_environment_variable_" + c.meta["explicit_env"])
     dumps = []
     for k, (sid, text) in enumerate(c.scenarios):
         r = results[sid]
